@@ -22,6 +22,7 @@ def base_config(wd, ports):
              "auth": {"required": True, "users": [{"username": "a", "password": "a"}], "cmd": ["true"], "cache": {"timeout": 10}}},
             {"name": "rev", "type": "reverse", "bind": "127.0.0.1:%d" % ports[4], "target": "127.0.0.1:9", "protocol": "tcp"},
             {"name": "quic", "type": "quic", "bind": "127.0.0.1:%d" % ports[5], "bbr": True, "tls": {"cert": FX + "/server.crt", "key": FX + "/server.key"}},
+            {"name": "tp", "type": "tproxy", "bind": "127.0.0.1:%d" % ports[6], "protocol": "udp", "maxUdpSocket": 128, "udpFullCone": False},
         ],
         "connectors": [
             {"name": "direct", "type": "direct", "bind": "127.0.0.1", "dns": {"servers": "system", "family": "V4Only"}, "fwmark": None, "keepalive": True},
@@ -218,7 +219,7 @@ def run(tier, t0):
     graphs = [c for c in g.cases if c["kind"] == "graph"]
     if len(rows) < 500 or len(graphs) < 1000:
         raise vlib.ToolError("config tables too small")
-    ports = [bb.free_port() for _ in range(6)]
+    ports = [bb.free_port() for _ in range(7)]
     base = base_config(wd, ports)
     cases = [{"id": 0, "yaml": json.dumps(base)}]
     meta = [("base", None, base)]
